@@ -73,6 +73,13 @@ pub open spec fn parts_view(parts: Seq<Part>) -> Seq<PartView> {
     Seq::new(parts.len(), |i: int| part_view(parts[i]))
 }
 
+// "this slice iterator yields exactly the elements of s, in order": stated as an invariant of every
+// `for` over parts so that the loop does not depend on how the iterated expression is written
+#[verifier::prophetic]
+pub open spec fn iter_items<'a, T>(it: core::slice::Iter<'a, T>, s: Seq<T>) -> bool {
+    vstd::std_specs::iter::IteratorSpec::remaining(&it) =~= s.map_values(|p: T| &p)
+}
+
 impl<'a> TemplateKind<'a> {
     pub open spec fn view(&self) -> Seq<Part<'a>> {
         match *self {
